@@ -7,3 +7,7 @@ type keeperT = keeper.Keeper
 var nbQuick = ReqOpts{MaxProv: 2, OnlyState: -1}
 
 func C06_NewBatch() { focus = "C06"; sceneNewBatch(nbQuick) }
+
+var exQuick = ReqOpts{MaxProv: 2, OnlyState: -1, NoSlash: true, OneOutput: true}
+
+func C16_Expiry() { focus = "C16"; sceneExpiry(exQuick) }
